@@ -537,6 +537,8 @@ def api_set(ctx):
 def stream_documents(ctx, acc):
     rng = ctx.rng
     sources = [("api", lambda: api_set(ctx)) for _ in range(ctx.n(150, 3000))] + reader_sets(ctx)
+    # the known shape: the legacy writer asked for a language without captions
+    sources.append(("api-empty-language", lambda: CaptionSet({"fr": CaptionList([])})))
     for src, mk in sources:
         cs = impl.call(mk)
         if not isinstance(cs, Ok):
@@ -582,6 +584,8 @@ def stream_documents(ctx, acc):
                 continue
             v = check_document(root, out.v, written, ps)
             if v:
+                if wname == "legacy" and sum(ps) == 0:
+                    v["shape"] = "legacy-writer-no-caption-written"
                 acc.res["violations"].append(dict(v, input=inp, document=out.v[:4000], replay="none"))
             else:
                 acc.res["nontrivial"].add(("D", src, wname, out.v))
